@@ -32,6 +32,17 @@ def make_case(tier, seed, index):
     if index < len(LIB):
         return {"kind": "library", "name": LIB[index], "start_offset": [0.0, 2.0, 3.3][(seed + index) % 3]}
     rng = gen.rng_for(seed, 13, index)
+    if index % simprop.CORPUS_EVERY == simprop.CORPUS_EVERY - 1:
+        # library / fixture model with one of its program books: other step sizes, hostile calibration factors, scaled
+        # budgets, start years on and off the grid
+        from av import corpus
+
+        for _ in range(50):
+            case = corpus.make_case(rng, max_steps=30 if tier == "quick" else 60)
+            fw_, db_, pbs_ = [x for x in corpus.PAIRS if x[0] == case["framework"] and x[1] == case["databook"]][0]
+            if pbs_:
+                case["progbook"] = pbs_[int(rng.integers(0, len(pbs_)))]
+                return case
     pf = {"p_targetable": 0.6, "p_junction_init": 0.6, "n_junctions": (0, 2)}
     if tier == "thorough":
         pf["steps"] = (3, 50)
@@ -201,6 +212,23 @@ def run_case(case):
             h2 = A.wrap(PR.ProgramSet, "get_outcomes", post=post_outcomes)
             result = P.run_sim(P.parsets[0], progset=pset, progset_instructions=instr)
         sample = {"kind": "library", "name": name, "start": instr.start_year}
+    elif case["kind"] == "corpus":
+        from av import corpus
+
+        P, pset, instr = corpus.build(case)
+        R.count("corpus_cases")
+        with attach.Attach() as A:
+            h1 = A.wrap(M.Model, "update_pars", pre=pre_pars)
+            h2 = A.wrap(PR.ProgramSet, "get_outcomes", post=post_outcomes)
+            try:
+                P, result, view0 = simcase.simulate(None, R, progset=pset, instructions=instr, project=P)
+            except simcase.Excluded as e:
+                return {"records": R.records(), "stats": R.stats, "nontrivial": False, "excluded": e.reason}
+            except Exception as e:
+                if type(e).__name__ == "BadInitialization":
+                    return {"records": R.records(), "stats": R.stats, "nontrivial": False, "excluded": "perturbed databook cannot be initialised"}
+                raise
+        sample = dict(corpus.describe(case))
     else:
         spec, ps = case["spec"], case["progspec"]
         if ps is None:
